@@ -305,7 +305,7 @@ def _build_hist(d):
     from bigtree import Node, BaseNode
     h = d["hist"]
     if d["binary"]:
-        root, objs = core.build_binary_tree(h["inits"][0])
+        root, objs = core.build_binary_tree(h["inits"][0], cls=H.hooked_bin())
         _fs, final_order = H.bstruct_final(h["inits"][0], h["edits"])
         roots = [root]
         apply = H.bapply_real
